@@ -32,6 +32,61 @@ def err_wrap_rows(kind, T):
     return (2,) if (kind == "odometry" and T == "SE2") else ()
 
 
+# ---- edge results depend on the values the vertices / measurement / information / offset hold WHEN the method is called.
+#      The objects are mutable and shared (a vertex pose is replaced by every optimizer update; arrays can be assigned in
+#      place), so: query the edge in a first, concrete state, change everything (by replacement or in place), query again, and
+#      compare with a freshly built edge that never saw the first state.  Shared by C01 (Jacobians) and C02 (error, chi2).
+FIRST_STATE = {
+    "R2": ([0.5, -1.25], [2.0, 0.75], [0.25, 4.0]), "R3": ([0.5, -1.25, 3.0], [2.0, 0.75, -1.0], [0.25, 4.0, 1.5]),
+    "SE2": ([0.5, -1.25, 0.75], [2.0, 0.75, -2.5], [0.25, 4.0, 1.0]),
+    "SE3": ([0.5, -1.25, 3.0, 0.5, 0.5, 0.5, 0.5], [2.0, 0.75, -1.0, 0.5, -0.5, 0.5, -0.5], [0.25, 4.0, 1.5, -0.5, 0.5, 0.5, 0.5]),
+}
+
+
+def requery(k, kind, TP, TL, how, want):
+    r = k.r
+    np = k.np
+    raw_p, raw_l, raw_z = FIRST_STATE[TP][0], FIRST_STATE[TL][1], FIRST_STATE[TL if kind == "landmark" else TP][2]
+    p0, l0, z0 = k.pose_from_raw(TP, raw_p), k.pose_from_raw(TL, raw_l), k.pose_from_raw(TL if kind == "landmark" else TP, raw_z)
+    m = POSE_C[TL]
+    O0 = np.array([[float(1 + (i == j) * 2 + 0.25 * (i + j)) for j in range(m)] for i in range(m)])
+    vs = [r.Vertex(0, p0), r.Vertex(1, l0)]
+    if kind == "odometry":
+        e = r.EdgeOdometry([0, 1], O0, z0, vs)
+    else:
+        off0 = k.pose_from_raw(TP, FIRST_STATE[TP][2])
+        e = r.EdgeLandmark([0, 1], O0, z0, off0, 0, vs)
+    first = (e.calc_error(), e.calc_chi2(), e.calc_jacobians(), e.calc_chi2_gradient_hessian())
+    p, l = k.pose(TP, "p"), k.pose(TL, "l")
+    z = k.pose(TL if kind == "landmark" else TP, "z")
+    O = k.sym_matrix("O", m)
+    off = k.pose(TP, "off") if kind == "landmark" else None
+    if how == "replaced":
+        vs[0].pose, vs[1].pose = p.copy(), l.copy()
+        e.estimate, e.information = z.copy(), np.array(O)
+        if off is not None:
+            e.offset = off.copy()
+    else:
+        vs[0].pose[:] = p.to_array()
+        vs[1].pose[:] = l.to_array()
+        e.estimate[:] = z.to_array()
+        e.information[:] = np.array(O)
+        if off is not None:
+            e.offset[:] = off.to_array()
+    vs2 = [r.Vertex(0, p), r.Vertex(1, l)]
+    fresh = r.EdgeOdometry([0, 1], np.array(O), z, vs2) if kind == "odometry" else r.EdgeLandmark([0, 1], np.array(O), z, off, 0, vs2)
+    tail = " after the operands were %s == the result of a fresh edge with the new values" % how
+    if "error" in want:
+        k.eq(e.calc_error(), fresh.calc_error(), "calc_error()" + tail)
+        k.eq(e.calc_chi2(), fresh.calc_chi2(), "calc_chi2()" + tail)
+    if "jacobians" in want:
+        got, ref = e.calc_jacobians(), fresh.calc_jacobians()
+        k.check(len(got) == len(ref) == 2, "two Jacobians")
+        for i, (a, b) in enumerate(zip(got, ref)):
+            k.eq(a, b, "calc_jacobians()[%d]" % i + tail)
+    k.check(len(first) == 4, "every query was made in the first state")
+
+
 def obligations(r, tier, seed):
     obs = []
     for T in TYPES:
@@ -65,6 +120,15 @@ def obligations(r, tier, seed):
             k.eq(J[0], k.deriv(f0, POSE_C[TP]), "vertex0")
             k.eq(J[1], k.deriv(f1, POSE_C[TL]), "vertex1")
         obs.append(Ob("C01/landmark/%s-%s" % (TP, TL), lmk, funcs=[LMK + ".calc_error", LMK + ".calc_jacobians"]))
+
+    for kind, TP, TL in [("odometry", T, T) for T in TYPES] + [("landmark", a, b) for a, b in LANDMARK_TYPINGS]:
+        for how in ("replaced", "changed-in-place"):
+            if tier == "quick" and how == "replaced" and TP != "SE3":
+                continue
+            def rq(k, kind=kind, TP=TP, TL=TL, how=how):
+                requery(k, kind, TP, TL, how, ("jacobians",))
+            obs.append(Ob("C01/%s/%s/jacobians-depend-on-the-current-values-only/%s" % (kind, TP if kind == "odometry" else TP + "-" + TL, how), rq,
+                          funcs=[(ODO if kind == "odometry" else LMK) + ".calc_jacobians"], eager=(TP == "SE3")))
 
     # canaries
     def canary_vertex_swap(k):
